@@ -19,10 +19,12 @@ if [ -f "$out/demo${k}_test.go" ]; then demo="$out/demo${k}_test.go"; fi
 cd "$wt"
 run_demo() {
   if [ -n "$demo" ]; then
-    cp "$demo" "$wt/zz_seed_demo_test.go"
+    ddir="."
+    if grep -q '^package main' "$demo"; then ddir="./cmd/bcl"; fi
+    cp "$demo" "$wt/$ddir/zz_seed_demo_test.go"
     names=$(grep -oE '^func (Test[A-Za-z0-9_]+)' "$demo" | awk '{print $2}' | paste -sd'|')
-    timeout 600 go test ${DEMO_FLAGS:-} -vet=off -count=1 -run "^($names)\$" . >"$wt-demo.log" 2>&1; rc=$?
-    rm -f "$wt/zz_seed_demo_test.go"
+    timeout 600 go test ${DEMO_FLAGS:-} -vet=off -count=1 -run "^($names)\$" "$ddir" >"$wt-demo.log" 2>&1; rc=$?
+    rm -f "$wt/$ddir/zz_seed_demo_test.go"
     return $rc
   elif [ -d "$out/demo$k" ]; then
     mkdir -p "$wt/zz_seed_demo" && cp "$out/demo$k"/*.go "$wt/zz_seed_demo/"
